@@ -100,18 +100,24 @@ var shapes = []shape{
 	{"append k2", func() []*rig.OpAction {
 		return []*rig.OpAction{act([]rig.KeyPerm{dk(k2, state.All)}, rig.Step{Kind: rig.Append, Key: k2, Val: []byte("d")})}
 	}},
+	{"put k1=1 (the parent's value)", func() []*rig.OpAction {
+		return []*rig.OpAction{act([]rig.KeyPerm{dk(k1, state.All)}, rig.Step{Kind: rig.Put, Key: k1, Val: []byte("1")})}
+	}},
+	{"put k1=x", func() []*rig.OpAction {
+		return []*rig.OpAction{act([]rig.KeyPerm{dk(k1, state.All)}, rig.Step{Kind: rig.Put, Key: k1, Val: []byte("x")})}
+	}},
 	{"copy k2->k3", func() []*rig.OpAction {
 		return []*rig.OpAction{act([]rig.KeyPerm{dk(k2, state.Read), dk(k3, state.All)}, rig.Step{Kind: rig.Copy, Key: k2, Val: []byte(k3)})}
 	}},
 }
 
-const partAShapes = 12 // part A enumerates blocks over the first 12 shapes
+const partAShapes = 12 // part A enumerates blocks over the first 12 shapes (+ the restore patterns below)
 
 // 4-transaction patterns: an owner of two keys, a reader of one of them, then writers of each
 // key (the reader must stay ordered before the later writer of ITS key even when a writer of
 // the owner's other key has come in between). Explored at preemption bound 0 (quick) / 1.
 var partB4 = [][]int{
-	{12, 14, 1, 13}, // W(k1,k2) ; R k2 -> k3 ; W k1 ; W k2
+	{12, 16, 1, 13}, // W(k1,k2) ; R k2 -> k3 ; W k1 ; W k2
 	{12, 11, 13, 1}, // W(k1,k2) ; R k2 ; W k2 ; W k1
 	{12, 0, 13, 1},  // W(k1,k2) ; R k1 ; W k2 ; W k1
 	{3, 11, 1, 13},  // R k1 W k2 ; R k2 ; W k1 ; W k2
@@ -159,6 +165,7 @@ type scenarioRun struct {
 	block *chain.ExecutionBlock
 	ref   *rig.SeqOutcome
 	decl  map[string]bool
+	model map[string]string // independent post-state of the universe keys (nil if the block is invalid)
 }
 
 func prepare(bs blockSpec) *scenarioRun {
@@ -170,13 +177,17 @@ func prepare(bs blockSpec) *scenarioRun {
 	bal := []uint64{1 << 40, 1 << 40, 1 << 40, 1 << 40, 0}
 	env := rig.NewEnv(rig.EnvConfig{Balances: bal, State: st})
 	var txs []*chain.Transaction
+	var txActs [][]*rig.OpAction
 	decl := map[string]bool{}
 	for i, s := range bs.shapes {
 		var as []chain.Action
+		var oas []*rig.OpAction
 		for j, a := range shapes[s].actions() {
 			a.Nonce = uint64(i*10 + j)
 			as = append(as, a)
+			oas = append(oas, a)
 		}
+		txActs = append(txActs, oas)
 		sp := i
 		if bs.sameSponsor {
 			sp = 0
@@ -196,7 +207,15 @@ func prepare(bs blockSpec) *scenarioRun {
 	decl[string(chain.HeightKey(env.MM.HeightPrefix()))] = true
 	decl[string(chain.TimestampKey(env.MM.TimestampPrefix()))] = true
 	decl[string(chain.FeeKey(env.MM.FeePrefix()))] = true
-	return &scenarioRun{env, blk, ref, decl}
+	sr := &scenarioRun{env: env, block: blk, ref: ref, decl: decl}
+	if bs.poor < 0 {
+		parent := map[string]string{}
+		for k, v := range st {
+			parent[k] = string(v)
+		}
+		sr.model = mapModel(parent, txActs)
+	}
+	return sr
 }
 
 type execObs struct {
@@ -225,6 +244,84 @@ func (sr *scenarioRun) body(c cfg, obs **execObs) func() {
 }
 
 var universe = []string{k1, k2, k3, kU}
+
+// mapModel is an INDEPENDENT reference for the post-state of the universe keys: a plain map,
+// no tstate, transactions applied one at a time, all-or-nothing per transaction, permission
+// lattice from the exported constants. (The sequential reference above shares the state view
+// implementation with the processor; this one shares nothing.)
+func mapModel(parent map[string]string, txActions [][]*rig.OpAction) map[string]string {
+	st := map[string]string{}
+	for k, v := range parent {
+		st[k] = v
+	}
+	for _, actions := range txActions {
+		perms := map[string]state.Permissions{}
+		for _, a := range actions {
+			for _, d := range a.Declared {
+				perms[d.Key] |= d.Perm
+			}
+		}
+		sc := map[string]string{}
+		for k, v := range st {
+			sc[k] = v
+		}
+		has := func(k string, p state.Permissions) bool { return perms[k]&p == p }
+		put := func(k, v string) bool {
+			if _, ok := sc[k]; ok {
+				if !has(k, state.Write) {
+					return false
+				}
+			} else if !has(k, state.Write) || !has(k, state.Allocate) {
+				return false
+			}
+			sc[k] = v
+			return true
+		}
+		ok := true
+	tx:
+		for _, a := range actions {
+			for _, s := range a.Script {
+				switch s.Kind {
+				case rig.Get:
+					ok = has(s.Key, state.Read)
+				case rig.Put:
+					ok = put(s.Key, string(s.Val))
+				case rig.Del:
+					ok = has(s.Key, state.Write)
+					if ok {
+						delete(sc, s.Key)
+					}
+				case rig.Fail:
+					ok = false
+				case rig.Copy:
+					ok = has(s.Key, state.Read)
+					if ok {
+						if v, present := sc[s.Key]; present {
+							ok = put(string(s.Val), v)
+						} else {
+							ok = has(string(s.Val), state.Write)
+							if ok {
+								delete(sc, string(s.Val))
+							}
+						}
+					}
+				case rig.Append:
+					ok = has(s.Key, state.Read)
+					if ok {
+						ok = put(s.Key, sc[s.Key]+string(s.Val))
+					}
+				}
+				if !ok {
+					break tx
+				}
+			}
+		}
+		if ok {
+			st = sc
+		}
+	}
+	return st
+}
 
 func (sr *scenarioRun) check(o *execObs, deadlock bool, blocked []string) (string, string) {
 	if deadlock {
@@ -286,6 +383,15 @@ func (sr *scenarioRun) check(o *execObs, deadlock bool, blocked []string) (strin
 			return "post-state-differs", fmt.Sprintf("key %s: processor %q(present=%v), sequential %q(present=%v)", rig.KeyName(k), g, gok, want, ok)
 		}
 	}
+	if sr.model != nil {
+		for _, k := range universe {
+			want, ok := sr.model[k]
+			g, gok := got[k]
+			if ok != gok || (ok && g != want) {
+				return "post-state-differs-from-independent-model", fmt.Sprintf("key %s: processor %q(present=%v), plain-map model %q(present=%v)", rig.KeyName(k), g, gok, want, ok)
+			}
+		}
+	}
 	return "", ""
 }
 
@@ -333,6 +439,17 @@ func blockSpecs(thorough bool) []blockSpec {
 		}
 	}
 	rec(nil)
+	// restore patterns: a later transaction writes the parent's value back / deletes a key an
+	// earlier one created (differences that only show against an independent model)
+	restore := []int{0, 1, 5, 6, 14, 15}
+	for _, a := range restore {
+		for _, b := range restore {
+			out = append(out, blockSpec{[]int{a, b}, true, false, -1}, blockSpec{[]int{a, b}, false, false, -1})
+			for _, c := range restore {
+				out = append(out, blockSpec{[]int{a, b, c}, true, false, -1})
+			}
+		}
+	}
 	if thorough {
 		// 4-transaction blocks over the order-sensitive shapes
 		core := []int{1, 2, 3, 4, 5, 7}
